@@ -6,6 +6,7 @@ import (
 	"os"
 	"os/signal"
 	"syscall"
+	"time"
 )
 
 func cmdScen(args []string) int {
@@ -28,6 +29,19 @@ func cmdScen(args []string) int {
 	// process): a registered signal channel keeps the runtime's deadlock detector off
 	keepAlive := make(chan os.Signal, 1)
 	signal.Notify(keepAlive, syscall.SIGUSR2)
+	// the last line of defence against a scenario that hangs with the library: after ten minutes
+	// (quick; the slowest set takes under one) or two hours (thorough) the process says where it
+	// is stuck and gives up - the check reports the set as failed to run instead of waiting for ever
+	limit := 10 * time.Minute
+	if thorough {
+		limit = 2 * time.Hour
+	}
+	go func() {
+		time.Sleep(limit)
+		fmt.Fprintln(os.Stderr, "harness: scenario set", name, "did not finish within", limit)
+		fmt.Fprintln(os.Stderr, goroutineDump())
+		os.Exit(3)
+	}()
 	fn(out, newRng(seed), thorough)
 	b, _ := json.MarshalIndent(out, "", " ")
 	if err := os.WriteFile(args[3], b, 0o644); err != nil {
